@@ -611,7 +611,9 @@ class GroupSpecificTerm:
     """
 
     def __init__(self, expr, factor):
-        self.expr = expr
+        # Each group specific term owns its expression: '(x | g + h)' creates one term per factor and
+        # the encoding of 'x' can be different in each of them.
+        self.expr = deepcopy(expr)
         self.factor = factor
         self.data = None
         self.groups = None
